@@ -97,3 +97,29 @@ for _i in range(1, 20):
     _p = 'C%02d' % _i
     if _p not in CLAIMS and _p not in NOT_APPLICABLE:
         NOT_APPLICABLE[_p] = _PENDING
+
+
+# Rules re-based on evaluation of the function itself (DESIGN section 12): added to the claims above.
+_EVAL = 'evaluation of the named functions by the checker\'s own source interpreter (sa/pyeval.py; no tdda code imported or run) over the grid of inputs the rule states, with stand-ins for everything outside the repository'
+EXTRA = {
+    'C01': ('What discovery emits, verification accepts: discover_field_constraints and every verifier evaluated with the same stand-in statistics over the column-summary grid (LOOP); fuzz helpers and comparators on a grid reaching integers beyond 2**53 (CLOSE); get_date on 180 strings written by str() of dates (DATELANG); to_json on dictionaries holding every Unicode line separator (STRIP).', _EVAL),
+    'C02': ('Every base verifier returns the documented verdict on a grid of (constraint value, statistic) pairs on both sides of every boundary, with and without a tolerance (VERDICT).', _EVAL),
+    'C03': ('fine_class is decided per class of characters its own tests cannot tell apart, evaluated on representatives (CLASS, any control flow).', _EVAL),
+    'C04': ('check_strings agrees with an independent statement of the comparison rule on 29 (actual, reference) pairs - identical text and its near misses - under every option combination (ORACLE); the entry points cut the same content into the same lines for every line terminator (SPLIT, on an in-memory file system with universal newlines).', _EVAL),
+    'C05': ('RFAIL enumerates the paths of check_dataframe with the flags it sets followed exactly.', 'path enumeration over the statement tree with a two-valued flag environment'),
+    'C09': ('The loader itself (initialize_from_dict with the real constructors), to_dict_value of every constraint class, to_json and strip_lines are evaluated on sample dictionaries (UNKNOWN, DATEPATH, STRIP).', _EVAL),
+    'C10': ('Both command-line front ends are evaluated on argument lists / a stand-in pytest request (FLAGS); the reference writers on an in-memory file system (VERBATIM).', _EVAL),
+    'C11': ('write_script evaluated on 20 generator states holding awkward text writes exactly the script, which parses with docstring, class and command intact (SCRIPT); every option of tdda gentest reaches gentest() under a parameter it has (FLAGKW); quote_raw and the emitted encodings evaluated.', _EVAL),
+    'C12': ('The script write_script produces holds exactly one test per checked stream and reference file plus exit-status and exception tests, each one assertion of the right kind on the command\'s output against the stored reference, with only the generator\'s exclusions (SCRIPT); the diff classification of generate_exclusions_for_file evaluated with stand-in differences (EXCLPROV).', _EVAL),
+    'C13': ('The anchoring wrapper and the group-or-not wrappers are evaluated (ANCHOR, TAG).', _EVAL),
+    'C14': ('PRNGState evaluated with a recording random module: saves, seeds (0 included) and restores exactly when a seed is given, also as a context manager (RESTORE).', _EVAL),
+    'C15': ('The string / text-file / binary-file comparisons evaluated on an in-memory file system: nothing written on a pass, only under the temporary directory on a failure, every file named in a comparison command exists, the raw file holds the actual content, the post-processed pair differs exactly on the unexcused lines, exact binary offset and lengths also beyond 64 KiB (ARTEFACTS).', _EVAL),
+    'C16': ('process_dialect (one key at a time, explicit zeros and false), get_fields_metadata (titles) and get_dialect (explicit values versus dc:replaces) are evaluated (DKEYS, TITLES, EXPLICIT).', _EVAL),
+    'C17': ('save_df evaluated on sample paths: listed formats written, every other spelling refused (EXTCASE).', _EVAL),
+    'C19': ('The tagged loader is evaluated on stand-in suites (list mode x item kind, nested suites) and the pytest option table with a recording parser (CHECKMODE, FLAGS).', _EVAL),
+    'C08': ('quoted() evaluated per dialect on names holding every delimiter (SQLQ).', _EVAL),
+}
+for _k, (_t, _q) in EXTRA.items():
+    CLAIMS[_k]['text'] = CLAIMS[_k]['text'].rstrip() + ' ' + _t
+    if _q not in CLAIMS[_k]['technique']:
+        CLAIMS[_k]['technique'] = CLAIMS[_k]['technique'] + '; ' + _q
